@@ -84,8 +84,11 @@ PROPS["C01"] = dict(
                 thorough=[rc(16, 15000), rc(16, 70000, flavour="fast", seed_offset=100)]),
     rule=("cases: typed random programs (0-5 program definitions incl. redefinition and OUT=parameter, nested LOOP/WHILE, labels and "
           "forward/backward GOTO / IF-GOTO also into and out of loop bodies, nested calls as arguments, id+int / id-int sugar, a library "
-          "of user macros with native meaning: <V>&<V>, <V>*<V>, f(args), IF-THEN-ELSE, SWAP, REPEAT), printed in free layout (all keyword "
-          "spellings, comments, glued tokens) and split over up to 4 included files at arbitrary token boundaries. Oracle: independent "
+          "of user macros with native meaning: <V>&<V>, <V>*<V> (priorities drawn from pools and optionally swapped, the AST built for the "
+          "chosen precedence; a third of the macro cases are rich in mixed expressions), f(args), IF-THEN-ELSE, SWAP, REPEAT), printed in "
+          "free layout (all keyword spellings, comments, glued tokens, macro definitions with the body on the next line or sharing "
+          "lines) and split over up to 4 included files at arbitrary token boundaries, a quarter with one file included at two places, "
+          "file names short, 130 characters long or with unusual characters. Oracle: independent "
           "reference interpreter over the generator's AST: every user variable of every live activation at the end (also after STOP inside "
           "a callee), divergence checked both ways with proportional budgets. Non-trivial: reference terminated within budget and executed "
           ">=1 loop iteration, call or taken jump; distinct by content hash of the file map."),
@@ -260,9 +263,10 @@ PROPS["C05"] = dict(
     harness="p_dbg",
     phases=dict(quick=[enum(8), rc(8, 1500)], thorough=[enum(16), rc(16, 40000)]),
     rule=("cases: histories over {execute, executeSingle(xk), stepping on/off, enable/disable(location from the available ones and bogus "
-          "ones), clear, reads} of length 3-40 on generated programs (canonical and free layout, several sites per line, calls in loops), "
-          "plus ALL histories of length <=5 (quick) / <=6 (thorough) over an 8-letter alphabet on 7 fixed small programs. Oracle "
-          "(metamorphic): the uninterrupted run of a second VM recorded as instruction-pointer path with a digest of all activations' "
+          "ones), enable-all, clear, reads} of length 3-40 on generated programs (canonical and free layout, several sites per line, calls in loops), "
+          "plus ALL histories of length <=5 (quick) / <=6 (thorough) over an 8-letter alphabet on 7 fixed small programs, plus a sweep "
+          "over resume lengths on a long-running fixed program (step k instructions by hand for every k in 0..1100, enable a late "
+          "line, execute twice). Oracle (metamorphic): the uninterrupted run of a second VM recorded as instruction-pointer path with a digest of all activations' "
           "variables; after every call the machine must be at the model's position on that path with the recorded values, its private "
           "code may differ from the compiled code only in the opcode of listed sites, and completing the history with clear; stepping "
           "off; execute ends in the uninterrupted run's final state. Non-trivial: >=1 stop inside a callee or >=2 stops, and >=1 "
@@ -280,7 +284,7 @@ PROPS["C05"] = dict(
 PROPS["C06"] = dict(
     harness="p_dbg",
     phases=dict(quick=[enum(8), rc(8, 1500)], thorough=[enum(16), rc(16, 40000)]),
-    rule=("cases: as C05 plus reset (9-letter alphabet for the exhaustive part). Oracle: explicit model (position k on the recorded path, enabled "
+    rule=("cases: as C05 plus reset (9-letter alphabet for the exhaustive part; enable-all; resume-length sweep k=0..1100). Oracle: explicit model (position k on the recorded path, enabled "
           "set E, stepping flag S): execute stops at the first j>=k whose instruction is a site with S or loc in E, else at the end; "
           "executeSingle returns true exactly at such a site or at HALT; setBreakPoint returns true exactly for available locations and "
           "updates E only then; after every call ip, isDone, the enabled set, the stepping flag and the armed/passive form of every site "
@@ -344,8 +348,9 @@ PROPS["C09"] = dict(
     phases=dict(quick=[enum(8), rc(4, 250), rc(4, 1000, flavour="fast", seed_offset=100)],
                 thorough=[enum(16), rc(8, 6000), rc(8, 40000, flavour="fast", seed_offset=100), fuzz(8, 360, max_len=300)]),
     rule=("cases: macro sets of 1-4 definitions (priorities from {none,5,5,9} so ties and inversions are frequent, literal identifiers / "
-          "operator characters / integers / keywords from a small pool so candidates overlap, all five slot kinds, bodies with $n, #n, "
-          "literals and re-emitted patterns) x token streams built from pattern instances whose slots are filled with identifiers, integers, "
+          "operator characters / integers / keywords from a small pool so candidates overlap, all five slot kinds, occasionally a long "
+          "pattern with 11-13 slots so that $10.. occur, bodies with $n, #n, literals and re-emitted patterns; definitions one per line, "
+          "with the body on the next line, or sharing lines) x token streams built from pattern instances whose slots are filled with identifiers, integers, "
           "nested calls, argument lists and multi-statement sequences, plus noise; plus ALL streams of length <=5 (quick) / <=6 (thorough) "
           "over a 5-token vocabulary for 4 fixed macro families. Only definitions produced by extract_macros are passed to apply_macros. "
           "Oracle: the run with budgets 1,2,3,... is validated step by step: the reference matcher (chart recogniser over the slot grammar "
@@ -371,7 +376,9 @@ PROPS["C10"] = dict(
           "plain and nested: the expanded stream must contain exactly one distinct non-user-writable name per temporary per step, each "
           "written exactly twice - so steps that are hundreds of passes apart still get different names; all short streams of the C09 "
           "families with the naming invariants. (token level, p_macro) macro sets whose bodies contain #n, streams with repeated and nested pattern instances, half of them "
-          "with the definitions alternating between two included files so that temporaries are defined on equal line numbers; every step "
+          "with the definitions alternating between two included files (a fifth of them with 130-character names) so that temporaries are "
+          "defined on equal line numbers, definitions also in free layout (body on the next line, a pattern on the line of the previous "
+          "definition's body, shared lines); every step "
           "of the validated run (see C09) is checked: equal n => equal name within the step, different n => different names, the name is "
           "no identifier of the input or of a macro body, the reference lexer does not tokenise it as one identifier, and no other step "
           "used it. (semantic level, p_sem) generated programs that use the temporary-using library macros IF-THEN-ELSE / SWAP / REPEAT "
@@ -429,8 +436,10 @@ PROPS["C18"] = dict(
     harness="p_det",
     phases=dict(quick=[rc(8, 50), rc(8, 50, flavour="tsan", seed_offset=100)],
                 thorough=[rc(8, 4000), rc(8, 4000, flavour="tsan", seed_offset=100)]),
-    rule=("cases: sequences of 2-5 compile inputs (valid programs with and without user macros/temporaries/loops, 2-edit mutants, token "
-          "soup; 1-3 files) and 1-8 threads. Oracle: canonical serialisation of everything compile() returns (instructions field-wise, "
+    rule=("cases: sequences of 2-6 compile inputs (valid programs with and without user macros/temporaries/loops, priority-sensitive "
+          "&/* expressions, 2-edit mutants, token soup; 1-3 files; a third of the inputs are near copies of the previous one with one "
+          "number - preferably a macro priority - or one identifier changed) and 1-8 threads; every case runs in a forked child, so the "
+          "case is the complete history of its process. Oracle: canonical serialisation of everything compile() returns (instructions field-wise, "
           "stack maps, both tables, errors, file requests) plus two bounded VM runs (plain; stepping with a breakpoint). (a) history "
           "independence: each input compiled after the preceding ones equals its compilation as the very first call of a fresh process "
           "(a fork server started before this process compiled anything); (b) N threads compiling/running the inputs concurrently give, "
